@@ -23,6 +23,19 @@ add("C19", "other",
     "eval(aggregate + '(tarray)') dispatch trusted. co_median (selection sort with list.remove) and the scatter/aggregate loops "
     "are bounded only.")
 
+add("C20", "other",
+    "cartesienne, projection_droite, proj_segment, proj_polyligne: for every NON-VERTICAL, non-degenerate segment the returned point "
+    "equals the closed-form nearest point A + clamp(t)(B-A), the returned distance is the distance to that point, and (lemma "
+    "nearest-is-minimal) that point minimises the distance over the whole segment; proj_polyligne returns the minimum over all "
+    "non-skipped segments with the index of the carrying segment (loop invariant). Vertical segments are case-split into their own "
+    "obligations (known finding).",
+    "IEEE rounding and the wrappers mapOnTrack/__projOnTrack: all integer segments in [0,3]^2 x half-integer queries, all 3-vertex "
+    "polylines on small grids, random polylines 2..8 vertices with oblique/horizontal/vertical/zero-length segments in dyadic, "
+    "decimal, offset and raw-float coordinates; queries beside/beyond/on/at a vertex/far.",
+    ENC + "math.sqrt trusted (r >= 0, r*r == x). KNOWN FINDING C20-vertical-segment: obligations *[vertical] fail / are undecided "
+    "and are reported as KNOWN-FINDING, not discharged. proj_polyligne's skip test (L1 length < 1e-16) is taken as the definition "
+    "of a degenerate segment; at least one segment must be non-degenerate. mapOnTrack wrappers are bounded only.")
+
 for i, b, n in [
     ("C01", "all histories of feature operations to a depth bound over a colliding name alphabet, random longer ones; run-time contract = abstract name->column map", ""),
     ("C02", "all expression trees to depth 3 over a small alphabet, random to depth 6, vectors with 0, negatives, ties, NaN; oracle = ordinary arithmetic under the documented operator table", ""),
@@ -41,7 +54,6 @@ for i, b, n in [
     ("C16", "all tracks of 2..5 fixes on a 3x3 grid, random tracks with duplicates/loops/collinear runs, tolerances 1e-6..1e3 x extent", ""),
     ("C17", "all small position/gap sequences incl. repeated positions and timestamps, random tracks, repeated computation", ""),
     ("C18", "all pairs of sizes 1..4 on small lattices, random beyond; p in {1,2,inf}, dim 1-3; oracle = enumeration of all couplings", ""),
-    ("C20", "random polylines 2..8 vertices with oblique/horizontal/vertical/zero-length segments; query beside, beyond, on, at a vertex, far; oracle = brute-force nearest point", ""),
 ]:
     add(i, "exploration", "", b,
         "Bounded stand-in only so far (the deductive contracts for this property are not in place yet): run-time contract on the real "
